@@ -56,6 +56,11 @@ func normalize(pk *packages.Package) {
 		return ox != nil && ox == oy && isVar
 	}
 	opAssign := map[token.Token]token.Token{token.ADD: token.ADD_ASSIGN, token.SUB: token.SUB_ASSIGN, token.MUL: token.MUL_ASSIGN, token.QUO: token.QUO_ASSIGN, token.REM: token.REM_ASSIGN}
+	// negation normal form and guard-clause form (before everything else, so that the later
+	// passes see the canonical conditions)
+	for _, f := range pk.Syntax {
+		guardForm(info, f)
+	}
 	for _, f := range pk.Syntax {
 		ast.Inspect(f, func(n ast.Node) bool {
 			switch x := n.(type) {
@@ -373,4 +378,123 @@ func normalize(pk *packages.Package) {
 			return true
 		}, nil)
 	}
+}
+
+// negate returns the negation of the boolean expression e in negation normal
+// form: !(A && B) = !A || !B, !(A || B) = !A && !B, !!A = A, !(a == b) = a != b,
+// and for integer or string operands !(a < b) = a >= b (not for floats: NaN).
+// Operand order, and with it evaluation order and short-circuiting, is kept.
+func negate(info *types.Info, e ast.Expr) ast.Expr {
+	switch x := e.(type) {
+	case *ast.ParenExpr:
+		return negate(info, x.X)
+	case *ast.UnaryExpr:
+		if x.Op == token.NOT {
+			return ast.Unparen(x.X)
+		}
+	case *ast.BinaryExpr:
+		switch x.Op {
+		case token.LAND, token.LOR:
+			x.X, x.Y = negate(info, x.X), negate(info, x.Y)
+			if x.Op == token.LAND {
+				x.Op = token.LOR
+			} else {
+				x.Op = token.LAND
+			}
+			return x
+		case token.EQL:
+			x.Op = token.NEQ
+			return x
+		case token.NEQ:
+			x.Op = token.EQL
+			return x
+		case token.LSS, token.LEQ, token.GTR, token.GEQ:
+			ordered := func(e ast.Expr) bool {
+				tv, ok := info.Types[e]
+				if !ok || tv.Type == nil {
+					return false
+				}
+				b, ok := tv.Type.Underlying().(*types.Basic)
+				return ok && b.Info()&(types.IsInteger|types.IsString) != 0
+			}
+			if ordered(x.X) && ordered(x.Y) {
+				x.Op = map[token.Token]token.Token{token.LSS: token.GEQ, token.LEQ: token.GTR, token.GTR: token.LEQ, token.GEQ: token.LSS}[x.Op]
+				return x
+			}
+		}
+	}
+	ne := &ast.UnaryExpr{OpPos: e.Pos(), Op: token.NOT, X: e}
+	if _, isBin := e.(*ast.BinaryExpr); isBin {
+		ne.X = &ast.ParenExpr{Lparen: e.Pos(), X: e, Rparen: e.End()}
+		info.Types[ne.X] = info.Types[e]
+	}
+	info.Types[ne] = info.Types[e]
+	return ne
+}
+
+// guardForm rewrites, in every file: `!(...)` over &&, ||, ! and comparisons
+// into negation normal form; and a loop body `if C { continue }; rest...`
+// (no init, no else, the body only the unlabelled continue, and more
+// statements following) into `if !C { rest... }`. Both spellings run the same
+// statements in the same order for every input.
+func guardForm(info *types.Info, f *ast.File) {
+	// negation normal form
+	astutil.Apply(f, nil, func(c *astutil.Cursor) bool {
+		u, ok := c.Node().(*ast.UnaryExpr)
+		if !ok || u.Op != token.NOT {
+			return true
+		}
+		switch inner := ast.Unparen(u.X).(type) {
+		case *ast.UnaryExpr:
+			if inner.Op == token.NOT {
+				c.Replace(negate(info, u.X))
+			}
+		case *ast.BinaryExpr:
+			switch inner.Op {
+			case token.LAND, token.LOR, token.EQL, token.NEQ, token.LSS, token.LEQ, token.GTR, token.GEQ:
+				n := negate(info, u.X)
+				if _, still := n.(*ast.UnaryExpr); !still {
+					if be, isBin := n.(*ast.BinaryExpr); isBin {
+						if _, inBin := c.Parent().(*ast.BinaryExpr); inBin {
+							p := &ast.ParenExpr{Lparen: be.Pos(), X: be, Rparen: be.End()}
+							info.Types[p] = info.Types[be]
+							c.Replace(p)
+							return true
+						}
+					}
+					c.Replace(n)
+				}
+			}
+		}
+		return true
+	})
+	// guard clause with continue
+	var fix func(list []ast.Stmt) []ast.Stmt
+	fix = func(list []ast.Stmt) []ast.Stmt {
+		for i := 0; i+1 < len(list); i++ {
+			is, ok := list[i].(*ast.IfStmt)
+			if !ok || is.Init != nil || is.Else != nil || len(is.Body.List) != 1 {
+				continue
+			}
+			br, ok := is.Body.List[0].(*ast.BranchStmt)
+			if !ok || br.Tok != token.CONTINUE || br.Label != nil {
+				continue
+			}
+			rest := fix(append([]ast.Stmt(nil), list[i+1:]...))
+			// declarations in the rest would change scope if something after the loop body used them: nothing can
+			is.Cond = negate(info, is.Cond)
+			is.Body = &ast.BlockStmt{Lbrace: is.Body.Lbrace, List: rest, Rbrace: is.Body.Rbrace}
+			return append(list[:i:i], is)
+		}
+		return list
+	}
+	ast.Inspect(f, func(n ast.Node) bool {
+		switch x := n.(type) {
+		case *ast.ForStmt:
+			x.Body.List = fix(x.Body.List)
+		case *ast.RangeStmt:
+			x.Body.List = fix(x.Body.List)
+		}
+		return true
+	})
 }
